@@ -316,6 +316,7 @@ func (env *c14Env) bloomLookups(sp *c14Spec, gzip bool) {
 			}
 			// does the FIRST lookup on a freshly opened file read the section of row group g?
 			needs := make([]bool, nrg)
+			lazy := make([]bool, nrg)
 			for g := 0; g < nrg; g++ {
 				src := &c14BloomSource{data: data, all: [][2]int{section(g, col)}}
 				f, err := parquet.OpenFile(src, int64(len(data)), append(env.openOpts(sp), c14BloomOpenOptions(open)...)...)
@@ -323,7 +324,10 @@ func (env *c14Env) bloomLookups(sp *c14Spec, gzip bool) {
 					continue
 				}
 				src.reads = 0
-				if bf := f.RowGroups()[g].ColumnChunks()[col].BloomFilter(); bf != nil {
+				bf := f.RowGroups()[g].ColumnChunks()[col].BloomFilter()
+				// is the filter loaded from the source by the call of BloomFilter() itself?
+				lazy[g] = src.reads > 0
+				if bf != nil {
 					bf.Check(values[colName][0].v)
 				}
 				needs[g] = src.reads > 0
@@ -334,7 +338,7 @@ func (env *c14Env) bloomLookups(sp *c14Spec, gzip bool) {
 						if c.Quick() && (ei+fg+1+mi)%2 != 0 && mode != "error" {
 							continue // quick tier: the error mode everywhere, the short modes on every other combination
 						}
-						env.bloomCase(sp, gzip, data, open, entry, colName, col, fg, mode, values[colName], stored[colName], allSecs, needs, func(v string, g int) bool { return cleanOf[v][g].clean })
+						env.bloomCase(sp, gzip, data, open, entry, colName, col, fg, mode, values[colName], stored[colName], allSecs, needs, lazy, func(v string, g int) bool { return cleanOf[v][g].clean })
 					}
 				}
 			}
@@ -343,7 +347,7 @@ func (env *c14Env) bloomLookups(sp *c14Spec, gzip bool) {
 }
 
 func (env *c14Env) bloomCase(sp *c14Spec, gzip bool, data []byte, open, entry, colName string, col, fg int, mode string,
-	values []c14BloomValue, stored map[string][]bool, allSecs [][2]int, needs []bool, clean func(v string, g int) bool) {
+	values []c14BloomValue, stored map[string][]bool, allSecs [][2]int, needs, lazy []bool, clean func(v string, g int) bool) {
 	c := env.c
 	rp := c14BloomReplay{What: "bloom", Spec: *sp, Gzip: gzip, Open: open, Entry: entry, Column: colName, FaultRG: fg, Mode: mode}
 	src := &c14BloomSource{data: data, mode: mode, all: allSecs}
@@ -423,7 +427,7 @@ func (env *c14Env) bloomCase(sp *c14Spec, gzip bool, data []byte, open, entry, c
 				}
 				return '0'
 			}
-			flags = append(flags, string([]byte{fl(needs[g]), fl(fg < 0 || fg == g), fl(clean(v.text, g))}))
+			flags = append(flags, string([]byte{fl(needs[g]), fl(fg < 0 || fg == g), fl(clean(v.text, g)), fl(lazy[g])}))
 		}
 		nontrivial := src.hits > 0
 		c.Case(fmt.Sprintf("bloom/%s/%s/%s", open, strings.SplitN(entry, ":", 2)[0], mode), fmt.Sprintf("%s|%v|%s|%s|%s|%d|%s|%s", sp.Name, gzip, open, entry, colName, fg, mode, v.text), nontrivial)
@@ -438,7 +442,7 @@ func (env *c14Env) bloomCase(sp *c14Spec, gzip bool, data []byte, open, entry, c
 		if c.HasOracle() {
 			want := c.Ask("c14.bloom " + strings.Join(flags, ","))
 			if a := strings.SplitN(want, "/", 2)[0]; a != got {
-				c.Mismatch("corr:C14.bloom", where(v.text)+" parts(needs read, faulted, clean)="+strings.Join(flags, ","), got, want, rp)
+				c.Mismatch("corr:C14.bloom", where(v.text)+" parts(needs read, faulted, clean, lazily loaded)="+strings.Join(flags, ","), got, want, rp)
 				return
 			}
 		}
